@@ -43,6 +43,26 @@ Definition un_sstmt (v : wv) : option sstmt :=
   | _ => None
   end.
 
+(* (16 x y z t form)  x = sel_t(y, z, c) with  def sel_t(a, b, k): if k > t: return a / return b   (form 0)
+                      x = y if c > t else z                                                          (form 1)
+   resolved for the run-time value g of the pass: the call returns (a shallow copy of) y when t < g, of z otherwise *)
+Definition un_sstmt_g (g : Z) (v : wv) : option sstmt :=
+  match v with
+  | WL [WI 16; WI x; WI y; WI z; WI t; WI form] =>
+      let w := if (t <? g)%Z then y else z in
+      Some (if Z.eqb form 0 then SRet x w else SVar x w)
+  | _ => un_sstmt v
+  end.
+
+Fixpoint un_sstmts_g (g : Z) (l : list wv) : option (list sstmt) :=
+  match l with
+  | [] => Some []
+  | v :: r => match un_sstmt_g g v, un_sstmts_g g r with
+              | Some s, Some ss => Some (s :: ss)
+              | _, _ => None
+              end
+  end.
+
 Fixpoint un_sstmts (l : list wv) : option (list sstmt) :=
   match l with
   | [] => Some []
@@ -78,7 +98,7 @@ Definition fw_trace (setup body : list stmt) (n : nat) : list wv :=
   end.
 
 Definition py_phase (st : pstate) (o : list Z) : wv :=
-  WL [WI 0; WL (map WI o); wnat (p_live st)].
+  WL [WI 0; WL (map WI o); wnat (p_live st); wnat (p_named st)].
 
 Fixpoint py_passes_tr (body : list stmt) (st : pstate) (n : nat) : list wv :=
   match n with
@@ -130,7 +150,8 @@ Definition py_trace_seq (setup : list stmt) (bodies : list (list stmt)) : list w
 
 (* ---- programs with run-time scalar arguments and len() indices (Device/DListLen.v)
    (0 x (items)) (1 x (comp)) (2 x x) (3 x v) (4 x v) (5 x i) (6 x i) (8 x y i) (9 x y i) (10 (xs) ((0 y)..)) as above, and
-   (12 x off) x.append(c + off)   (13 x off) x.remove(c + off)   (14 x y sg k) mon.write(x[len(y) + k]) / x[k - len(y)] *)
+   (12 x off) x.append(c + off)   (13 x off) x.remove(c + off)   (14 x y sg k) mon.write(x[len(y) + k]) / x[k - len(y)]
+   (17 x p y sg k) r = h(x); mon.write(r)  with  def h(l_p): return l_p[len(l_y) + k] / l_p[k - len(l_y)]  in front of the main loop *)
 Fixpoint un_rvars (l : list wv) : option (list name) :=
   match l with
   | [] => Some []
@@ -154,6 +175,7 @@ Definition un_tstmt (v : wv) : option tstmt :=
   | WL [WI 12; WI x; WI off] => Some (TAppend x (TRt off))
   | WL [WI 13; WI x; WI off] => Some (TRemove x (TRt off))
   | WL [WI 14; WI x; WI y; WI sg; WI k] => Some (TGetLen x y (negb (Z.eqb sg 0)) k)
+  | WL [WI 17; WI x; WI p; WI y; WI sg; WI k] => Some (TCallLen x p y (negb (Z.eqb sg 0)) k)
   | _ => None
   end.
 
@@ -180,7 +202,7 @@ Fixpoint tf_passes_tr (t : tenv) (d : list name) (body : list gstmt) (st : fstat
 
 Definition tf_trace (setup : list tstmt) (body : list gstmt) (cs : list Z) : list wv :=
   let '(t0, d0) := track false [] [] (ungated setup) in
-  match tf_block false 0 [] [] f_init (ungated setup) with
+  match tf_block false 0 (fun _ => []) [] [] f_init (ungated setup) with
   | Safe (st0, o) => fw_phase st0 o :: tf_passes_tr t0 d0 body st0 cs
   | Unsafe k => [WL [WI 1; WI (wkind k)]]
   end.
@@ -203,17 +225,18 @@ Definition tp_trace (setup : list tstmt) (body : list gstmt) (cs : list Z) : lis
   end.
 
 (* the folded len() values, one per len() read of the body in source order (-1: emitted as run-time __redu_len) *)
-Fixpoint folded_lens (t : tenv) (ss : list gstmt) : list wv :=
+Fixpoint folded_lens (fe : tstmt -> tenv) (t : tenv) (ss : list gstmt) : list wv :=
   match ss with
   | [] => []
   | (s, g) :: r =>
       (match s with
        | TGetLen _ y _ _ => [WI (match t_cur t y with Some cur => Z.of_nat (length cur) | None => -1 end)]
+       | TCallLen _ p y _ _ => [WI (match t_cur (fn_env (fe s) [p]) y with Some cur => Z.of_nat (length cur) | None => -1 end)]
        | _ => []
-       end) ++ folded_lens (track1 (is_gated g) t s) r
+       end) ++ folded_lens fe (track1 (is_gated g) t s) r
   end.
 
-(* case: (0 (setup stmts) (body stmts) n)  ->  (0 guard (fw phases) (py phases))
+(* case: (0 (setup stmts) (body stmts) n)  ->  (0 guard (fw phases) (py phases) frozen_ok)      py phase = (0 (outs) live named)
    case: (1 (setup stmts) (body stmts) (gates) (g values, one per pass))  ->  the same for the
          history in which pass k executes the body statements whose gate t satisfies t < g_k
    case: (2 (setup tstmts) (body tstmts) (gates) (run-time values c, one per pass))  ->  (0 len_ok (fw phases) (py phases)
@@ -227,17 +250,22 @@ Definition run (v : wv) : wv :=
           let k := Z.to_nat n in
           wok [wbool (single_owner setup body);
                WL (fw_trace setup body k);
-               WL (py_trace setup body k)]
+               WL (py_trace setup body k);
+               wbool (frozen_ok setup (repeat body k))]
       | _, _ => wbad
       end
   | WL [WI 1; WL s; WL b; WL gates; WL gvals] =>
-      match un_sstmts s, un_sstmts b, un_ints gates, un_ints gvals with
-      | Some ss, Some bs, Some gs, Some vs =>
-          let '(setup, body) := elab_prog ss bs in
-          let bodies := map (fun g => select g gs body) vs in
+      match un_sstmts s, un_sstmts_g 0 b, un_ints gates, un_ints gvals with
+      | Some ss, Some _, Some gs, Some vs =>
+          let '(setup, d1) := elab false [] ss in
+          let bodies := map (fun g => match un_sstmts_g g b with
+                                      | Some bs => select g gs (fst (elab true d1 bs))
+                                      | None => []
+                                      end) vs in
           wok [wbool (single_owner_seq setup bodies);
                WL (fw_trace_seq setup bodies);
-               WL (py_trace_seq setup bodies)]
+               WL (py_trace_seq setup bodies);
+               wbool (frozen_ok setup bodies)]
       | _, _, _, _ => wbad
       end
   | WL [WI 2; WL s; WL b; WL gates; WL cvals] =>
@@ -247,7 +275,7 @@ Definition run (v : wv) : wv :=
           wok [wbool (len_ok ss body);
                WL (tf_trace ss body cs);
                WL (tp_trace ss body cs);
-               WL (folded_lens (fst (track false [] [] (ungated ss))) body)]
+               WL (let t0 := fst (track false [] [] (ungated ss)) in folded_lens (first_env t0 body) t0 body)]
       | _, _, _, _ => wbad
       end
   | _ => wbad
